@@ -105,7 +105,52 @@ impl core::ops::Deref for BytesMut {
 }
 impl Bytes {
     #[verifier::external_body]
-    pub fn len(&self) -> (r: usize) ensures r == self@.len() { unimplemented!() }
+    pub fn len(&self) -> (r: usize) ensures r == self@.len(), r <= 0x7fff_ffff_ffff_ffff { unimplemented!() }
+    #[verifier::external_body]
+    pub fn from(v: Vec<u8>) -> (r: Bytes) ensures r@ == v@ { unimplemented!() }
+    #[verifier::external_body]
+    pub fn remaining(&self) -> (r: usize) ensures r == self@.len(), r <= 0x7fff_ffff_ffff_ffff { unimplemented!() }
+    #[verifier::external_body]
+    pub fn has_remaining(&self) -> (r: bool) ensures r == (self@.len() > 0) { unimplemented!() }
+    #[verifier::external_body]
+    pub fn is_empty(&self) -> (r: bool) ensures r == (self@.len() == 0) { unimplemented!() }
+    #[verifier::external_body]
+    pub fn get_u8(&mut self) -> (r: u8)
+        requires old(self)@.len() >= 1
+        ensures r == old(self)@[0], final(self)@ == old(self)@.skip(1)
+    { unimplemented!() }
+    #[verifier::external_body]
+    pub fn get_u16(&mut self) -> (r: u16)
+        requires old(self)@.len() >= 2
+        ensures r as nat == be_val(old(self)@.take(2)), final(self)@ == old(self)@.skip(2)
+    { unimplemented!() }
+    #[verifier::external_body]
+    pub fn get_u32(&mut self) -> (r: u32)
+        requires old(self)@.len() >= 4
+        ensures r as nat == be_val(old(self)@.take(4)), final(self)@ == old(self)@.skip(4)
+    { unimplemented!() }
+    #[verifier::external_body]
+    pub fn get_u128(&mut self) -> (r: u128)
+        requires old(self)@.len() >= 16
+        ensures r as nat == be_val(old(self)@.take(16)), final(self)@ == old(self)@.skip(16)
+    { unimplemented!() }
+    #[verifier::external_body]
+    pub fn advance(&mut self, n: usize)
+        requires n <= old(self)@.len()
+        ensures final(self)@ == old(self)@.skip(n as int)
+    { unimplemented!() }
+    #[verifier::external_body]
+    pub fn copy_to_slice(&mut self, dst: &mut [u8])
+        requires old(self)@.len() >= old(dst)@.len()
+        ensures final(dst)@ == old(self)@.take(old(dst)@.len() as int), final(self)@ == old(self)@.skip(old(dst)@.len() as int)
+    { unimplemented!() }
+    #[verifier::external_body]
+    pub fn copy_to_bytes(&mut self, n: usize) -> (r: Bytes)
+        requires n <= old(self)@.len()
+        ensures r@ == old(self)@.take(n as int), final(self)@ == old(self)@.skip(n as int)
+    { unimplemented!() }
+    #[verifier::external_body]
+    pub fn to_vec(&self) -> (r: Vec<u8>) ensures r@ == self@ { unimplemented!() }
 }
 impl core::ops::Deref for Bytes {
     type Target = [u8];
